@@ -335,6 +335,22 @@ def _roundtrip(run, PV):
             if not ok and dec == "bytes.fromhex(M)" and _strip(enc) == _strip(
                     f"ecdsa.VerifyingKey.from_string(self.{fld}, ecdsa.NIST256p).to_string('uncompressed').hex()"):
                 ok = True    # same key, canonical uncompressed encoding
+                # ... which changes the stored bytes (a compressed key comes back uncompressed): the verdict is the same after a reload only if nothing looks
+                # at the raw stored bytes - every read of the field goes through the parsed key
+                parsed = _strip(f"ecdsa.VerifyingKey.from_string(self.{fld}, ecdsa.NIST256p)")
+                for mname_, m_ in sorted(ci.methods.items()):
+                    par_ = {}
+                    for n_ in ast.walk(m_.node):
+                        for ch in ast.iter_child_nodes(n_):
+                            par_[id(ch)] = n_
+                    for n_ in A.own_nodes(m_):
+                        if isinstance(n_, ast.Attribute) and isinstance(n_.ctx, ast.Load) and n_.attr == fld and isinstance(n_.value, ast.Name) and n_.value.id == "self":
+                            up = par_.get(id(n_))
+                            okp = isinstance(up, ast.Call) and _strip(norm(up)) == parsed
+                            run.check("R3", okp, f"{ci.name}.{mname_}: self.{fld} is only read as the parsed key", key=f"{ci.name}.{mname_}|raw-read|{fld}", where=m_.loc(n_),
+                                      message=f"{ci.name}.{mname_} reads the raw bytes of self.{fld} (`{norm(up)[:70] if up is not None else fld}`), but to_dict() saves that field "
+                                              "re-encoded (uncompressed): a certificate whose key was given in another encoding gets a different verdict / value after it is "
+                                              "saved and loaded again")
             run.check("R3", ok, f"{ci.name}: `{key}` re-encoded as the inverse of how it was read",
                       key=f"{ci.name}.to_dict|{key}|not-inverse", where=td.loc(),
                       message=f"{ci.name}: constructor stores `{key}` as self.{fld} = {dec.replace('M', 'map[' + repr(key) + ']')} "
